@@ -208,9 +208,6 @@ func (c *Channel) Empty() error {
 	defer c.Unlock()
 
 	c.initPQ()
-	for _, client := range c.clients {
-		client.Empty()
-	}
 
 	verifPoint("empty:before-drain")
 	for {
@@ -224,7 +221,13 @@ func (c *Channel) Empty() error {
 	}
 
 finish:
-	return c.backend.Empty()
+	err := c.backend.Empty()
+	// reset the consumers only now: the reset makes a consumer whose RDY window was
+	// full ready again, and it must find nothing of what this empty discards
+	for _, client := range c.clients {
+		client.Empty()
+	}
+	return err
 }
 
 // flush persists all the messages in internal memory buffers to the backend
